@@ -112,7 +112,8 @@ def parse_fragment(text: str) -> Optional[_Frag]:
         for nd in frag.nodes:
             for n in ast.walk(nd):
                 if isinstance(n, ast.Attribute) or (isinstance(n, ast.Name) and n.id not in frag.wild and n.id not in ('None', 'True', 'False')) \
-                        or (isinstance(n, ast.keyword) and n.arg) or (isinstance(n, ast.Constant) and isinstance(n.value, (str, bytes)) and n.value):
+                        or (isinstance(n, ast.keyword) and n.arg) or (isinstance(n, ast.Constant) and isinstance(n.value, (str, bytes)) and n.value) \
+                        or (isinstance(n, ast.Constant) and isinstance(n.value, (int, float)) and not isinstance(n.value, bool) and n.value not in (0, 1, -1)):
                     anchors += 1
         if anchors == 0:
             frag = None
@@ -244,3 +245,40 @@ def U(node: Any) -> Src:
     if isinstance(node, list):
         return Src('\n'.join(ast.unparse(n) for n in node), node)
     return Src(ast.unparse(node), node)
+
+
+def match_all(found: Sequence[Any], patterns: Sequence[str]) -> bool:
+    """every pattern matches exactly one of `found` (Src values) and vice versa, with ONE binding of the pattern variables shared by all
+    patterns - so `['a[i + c]', 'a[i + c + h]']` pins down how the expressions relate to each other, whatever a, i, c and h are called.
+    (No anchor is required here: the caller asks for the match explicitly.)"""
+    if len(found) != len(patterns):
+        return False
+    if sorted(map(str, found)) == sorted(patterns):
+        return True
+    frags = []
+    for p in patterns:
+        try:
+            body = ast.parse(textwrap.dedent(p).strip()).body
+        except SyntaxError:
+            return False
+        if len(body) != 1 or not isinstance(body[0], ast.Expr):
+            return False
+        frags.append(body[0].value)
+    g = globals_()
+    wild = {n.id for f in frags for n in ast.walk(f) if isinstance(n, ast.Name) and n.id not in g}
+    nodes = [getattr(f, 'node', None) for f in found]
+    if any(n is None for n in nodes):
+        return False
+
+    def rec(i: int, used: Set[int], bind: Dict[str, str]) -> bool:
+        if i == len(frags):
+            return True
+        for j, nd in enumerate(nodes):
+            if j in used:
+                continue
+            b2 = dict(bind)
+            if match(frags[i], nd.value if isinstance(nd, ast.Expr) else nd, wild, b2):
+                if rec(i + 1, used | {j}, b2):
+                    return True
+        return False
+    return rec(0, set(), {})
